@@ -6,3 +6,17 @@ open XsVerif.Props.C19
 #print axioms path_injective
 #print axioms render_resolves_partial
 #print axioms render_counterexample
+#print axioms relabel_fault_localised
+#print axioms child_fault_localised
+#print axioms child_removed_localised
+#print axioms single_fault_localised
+#print axioms tableVal_local
+#print axioms effectiveB_sound
+#print axioms observed_fault_localised
+#print axioms gov_nonlocal_counterexample
+#print axioms error_paths_locate
+#print axioms single_fault_paths_locate
+#print axioms lazy_path_contains
+#print axioms lazy_state_path_contains
+#print axioms lazy_path_exact_partial
+#print axioms lazy_path_counterexample
